@@ -98,4 +98,4 @@ class HeaderSplit(Contract):
         return [Case("split", [selfo], post, pre=pre, zh=h0, heap={selfo.oid: {"vlevel": vl}}, invariants=inv, models=models,
                      options=dict(alloc_lists=True), symbols=dict(n_tags=n, vlevel=vl),
                      replay=lambda w: {"target": "bounded.replay_helpers:header_split_cases"},
-                     confirm=lambda w, out: out.get("kind") != "return" or out.get("value") is not True)]
+                     confirm=battery_confirm)]
